@@ -160,7 +160,14 @@ impl Tree {
                     for j in 0..m {
                         let take = if j + 1 == m { i + k - cut } else { 1.max((i + k - cut) / (m - j)) };
                         // names chosen so that byte-wise sort == intended order, including 2 vs 10 traps
+                        // the last file of a `*.ledger` directory may bear the name of the including
+                        // file (another directory, another file)
+                        let own = file.rsplit('/').next().unwrap_or("");
                         let name = match pattern_kind {
+                            0 if j + 1 == m && own.as_bytes().first().map(|b| b.is_ascii_alphabetic()).unwrap_or(false) && own.ends_with(".ledger") && rng.chance(1, 3) => {
+                                self.feature("glob-match-named-like-includer");
+                                own.to_string()
+                            }
                             0 => format!("{:02}.ledger", j * 9 + 1),
                             1 => format!("a{}b.ledger", (b'a' + j as u8) as char),
                             _ => format!("part-{}.ledger", ["A", "B", "a"][j]),
@@ -201,9 +208,14 @@ impl Tree {
                     let gdir = join(&dir, &format!("y{:02}", n));
                     let m = 1 + rng.usize(k.min(3));
                     let mut cut = i;
+                    // directory names one of which is a prefix of the next, continued by a byte below
+                    // '/': paths sort component by component ("2024" < "2024-adj" < "2024.old"),
+                    // not as strings
+                    let prefix_names = rng.chance(1, 3);
                     for j in 0..m {
                         let take = if j + 1 == m { i + k - cut } else { 1.max((i + k - cut) / (m - j)) };
-                        let child = join(&join(&gdir, &format!("20{:02}", 21 + j)), &format!("{:02}.ledger", 12 - j * 5));
+                        let dname = if prefix_names { ["2024", "2024-adj", "2024.old"][j].to_string() } else { format!("20{:02}", 21 + j) };
+                        let child = join(&join(&gdir, &dname), &format!("{:02}.ledger", 12 - j * 5));
                         self.build(rng, entries, cut, cut + take, &child, depth + 1, true);
                         cut += take;
                     }
@@ -212,9 +224,18 @@ impl Tree {
                         self.feature("decoys");
                         self.files.insert(join(&join(&gdir, ".2020"), "01.ledger"), DECOY_TEXT.to_string());
                         self.files.insert(join(&gdir, "00.ledger"), DECOY_TEXT.to_string());
-                        self.files.insert(join(&join(&gdir, "2021"), "99.LEDGER"), DECOY_TEXT.to_string());
+                        self.files.insert(join(&join(&gdir, if prefix_names { "2024" } else { "2021" }), "99.LEDGER"), DECOY_TEXT.to_string());
                     }
-                    let pat = if rng.chance(1, 2) { "*/*.ledger" } else { "20??/*.ledger" };
+                    if prefix_names {
+                        self.feature("glob-directories-prefix-of-each-other");
+                    }
+                    let pat = if prefix_names {
+                        if rng.chance(1, 2) { "*/*.ledger" } else { "2024*/*.ledger" }
+                    } else if rng.chance(1, 2) {
+                        "*/*.ledger"
+                    } else {
+                        "20??/*.ledger"
+                    };
                     self.append(file, &format!("include {}\n\n", relative(file, &join(&gdir, pat))));
                 }
             }
